@@ -141,3 +141,52 @@ pub mod w5 {
         s
     }
 }
+pub mod a11 {
+    use garnish_lang_traits::GarnishData;
+    pub fn ok_walk_drains<D: GarnishData>(this: &mut D, a: D::Size, b: D::Size) -> Result<Option<D::Size>, D::Error> {
+        let start = this.get_register_len();
+        this.push_register(a)?;
+        this.push_register(b)?;
+        let mut found = None;
+        while this.get_register_len() > start {
+            match this.pop_register()? {
+                Some(x) => {
+                    found = Some(x);
+                    break;
+                }
+                None => {}
+            }
+        }
+        while this.get_register_len() > start {
+            this.pop_register()?;
+        }
+        Ok(found)
+    }
+    pub fn ctl_walk_pops_everything<D: GarnishData>(this: &mut D, a: D::Size, b: D::Size) -> Result<Option<D::Size>, D::Error> {
+        let start = this.get_register_len();
+        this.push_register(a)?;
+        this.push_register(b)?;
+        let mut found = None;
+        while this.get_register_len() > start {
+            match this.pop_register()? {
+                Some(x) => {
+                    found = Some(x);
+                    break;
+                }
+                None => {}
+            }
+        }
+        if found.is_some() {
+            while this.pop_register()?.is_some() {}
+        }
+        Ok(found)
+    }
+}
+pub mod n6 {
+    pub fn ctl_epsilon_zero(v: f64) -> bool {
+        v.abs() < f64::EPSILON
+    }
+    pub fn ok_exact_zero(v: f64) -> bool {
+        v == 0.0 || v < 0.0
+    }
+}
